@@ -30,8 +30,10 @@ SPEC = dict(
          "do not move it. Offers without size, with every fault at every position; lost block with and without a following <close/>; "
          "<data/> text with invalid characters / misplaced padding / oversize block. SOCKS5 SENDING job (real outgoing job, harness = "
          "peer and XEP-0065 proxy over 127.0.0.1, one model line per scenario): honest direct, peer claims our host without having "
-         "connected, unknown host used, peer goes away after 1 kB of 64 MB, honest via proxy, activation refused. accept(filePath) "
-         "(oracle only): files of 0..70000 bytes read back from disk inside finished(), /dev/full, unwritable path. A sequence is "
+         "connected, unknown host used, peer goes away after 1 kB of 64 MB, honest via proxy, activation refused. accept(filePath), "
+         "in-band and SOCKS5: destination path holding no / empty / shorter / same-length / longer previous file; the WHOLE file is read "
+         "back inside finished() and compared in length and content with the sent bytes (oracle) and with the model's `disk` under the "
+         "code's open mode (one `pathrun` line each); /dev/full, unwritable path. A sequence is "
          "non-trivial when it yields >= 2 distinct observations.",
     trusted_base=[
         "Lean 4.33.0 kernel; axioms per theorem listed under coverage.theorems (subset of propext, Classical.choice, Quot.sound)",
@@ -54,7 +56,8 @@ SPEC = dict(
         "flight. SOCKS5: the receive path is modelled as a byte stream; the sending job only as an outcome table (ssendOutcome) over "
         "6 scenarios driven on the real code; the SOCKS5 wire handshake, candidate selection among several stream hosts, connection "
         "time-outs and transfers without announced size on the SOCKS5 sending side are not modelled (partial)",
-        "accept(filePath) is exercised by the oracle only (no model lines): the model's devices are what accept(QIODevice*) gets",
+        "accept(filePath): the model carries the previous content of the destination and the open mode as a constant "
+        "(acceptOpenMode = truncate, tied by the pathrun lines); short writes / full disk on that path are oracle only",
         "the sending side needs a non-loopback interface for the direct SOCKS5 scenarios (QXmppIceComponent::discoverAddresses skips "
         "loopback); without one they are skipped and reported as socks_send_skipped in the statistics",
         "the IBB block size is not settable through the public API (fixed 4096): the harness writes QXmppTransferManagerPrivate::"
